@@ -25,7 +25,8 @@ RULE = ("generated input folders for the CSV, PI and NetCDF optimisation mixins 
         "partial and non-contiguous time stamps) followed by get_timeseries; after optimize() / simulate() the exported "
         "file is re-read and its time stamps and values are compared with extract_results() at times(), and the "
         "abstract tables of the three back-ends are compared with each other on the same data.  non-trivial = forecast "
-        "time inside the axis, several members or a set/get sequence; distinct = abstracted case shapes")
+        "time inside the axis, several members or a set/get sequence; distinct = abstracted case shapes"
+        ' Also: plain values shorter than the horizon, data-store operation sequences with members in any order, per-member initial_state.csv in CSV ensembles.')
 MODELLED = ("storage.py datetime/seconds conversion, optimization/io_mixin.py times/history/bounds/set_timeseries alignment, export "
             "row assembly of csv_mixin/pi_mixin/netcdf_mixin, simulation/io_mixin.py input feed and output record")
 NOT_MODELLED = ("the optimiser and the simulator themselves (their results are the reference for the exported values); file codecs "
